@@ -4,7 +4,7 @@ Oracle: metamorphic — transform map, trace and distance parameters, predict th
 path equal up to renaming unless probabilities tie)."""
 from hypothesis import strategies as st
 
-from .. import base, gen
+from .. import audit, base, gen
 from ..base import Violation
 from . import common
 
@@ -83,6 +83,12 @@ def check_case(case, ctx):
                                          "the order in which neighbours are listed")):
             ctx.record(case, False, ["excluded:KF-NE-ORDER"])
             return
+        if ("reorder" in tf or "relabel" in tf) and case["config"].get("non_emitting_states"):
+            why = audit.ne_revisit_tie(m1, m2, ren)
+            if why and ctx.known("KF-NE-ORDER", "the no-revisit filter of a non-emitting run follows the one chain kept among equally "
+                                                "probable predecessors; which one is kept depends on the listing / label order"):
+                ctx.record(case, False, ["excluded:KF-NE-ORDER", "KF-NE-ORDER:revisit-filter-tie"])
+                return
         raise Violation(f"probability.{what}", f"original best log-probability {c1['lp']}, transformed ({tf}) {c2['lp']}")
     want = [[ren[x] for x in k[:-2]] + list(k[-2:]) for k in c1["keys"]]
     classes = ["family:" + case["config"]["family"]] + ["tf:" + n for n in names]
